@@ -11,7 +11,7 @@ import (
 // and every generated text is valid under the interpreter's grammar.
 func TestGenVsInterp(t *testing.T) {
 	rapid.Check(t, func(t *rapid.T) {
-		m := Gen(t, GenOpts{Signed: true, WideBytes: rapid.Bool().Draw(t, "wide")})
+		m := Gen(t, GenOpts{Signed: true, WideBytes: rapid.Bool().Draw(t, "wide"), BigStreams: rapid.Bool().Draw(t, "big"), HugeLine: rapid.IntRange(0, 20).Draw(t, "huge") == 0})
 		txt := m.Text()
 		p, err := Interpret(txt, Options{})
 		if err != nil {
